@@ -253,7 +253,7 @@ def wf (j : Json) : Except String Json := do
   pure (Json.mkObj [("ok", Json.bool true), ("holds", Json.bool (wellFormed kind N tmin tmax ext col tr))])
 
 def tv (j : Json) : Except String Json := do
-  let sir ← getBool (← fld j "sir")
+  let forest ← getBool (← fld j "forest")
   let shift ← getRat (← fld j "shift")
   let N ← getNat (← fld j "N")
   let succ ← getList (getList getNat) (← fld j "succ")
@@ -261,22 +261,35 @@ def tv (j : Json) : Except String Json := do
   let init ← getList getNat (← fld j "init")
   let hs ← getList getHist (← fld j "hists")
   let trs ← getList getTrans (← fld j "trans")
+  let induced ← getList (fun e => do
+      match ← getArr e with
+      | [a, b, c] => pure ((← getStr a), (← getStr b), (← getStr c))
+      | _ => .error "bad induced") (← fld j "induced")
+  let spont ← getList (fun e => do
+      match ← getArr e with
+      | [a, b] => pure ((← getStr a), (← getStr b))
+      | _ => .error "bad spont") (← fld j "spont")
+  let spec : TVSpec := { induced := induced, spont := spont }
   pure (Json.mkObj [("ok", Json.bool true),
-    ("holds", Json.bool (transmissionsValid sir shift N (listFn succ []) tmin init hs trs))])
+    ("holds", Json.bool (transmissionsValid spec forest shift N (listFn succ []) tmin init hs trs))])
 
 /-- C10: histories well-formed, summary spec on the implementation's histories, collapsed arrays, node_status queries -/
 def c10 (j : Json) : Except String Json := do
-  let sir ← getBool (← fld j "sir")
+  let legal ← getList (fun e => do
+      match ← getArr e with
+      | [a, b] => pure ((← getStr a), (← getStr b))
+      | _ => .error "bad legal") (← fld j "legal")
   let tmin ← getRat (← fld j "tmin")
   let hs ← getList getHist (← fld j "hists")
   let statuses ← getList getStr (← fld j "statuses")
   let spec := summarySpec hs statuses
-  let histOK := hs.all (histWF sir tmin)
+  let histOK := hs.all (histWFg legal tmin)
   let arrEq ← match fldOpt j "arrays" with
     | none => pure true
     | some a => do
       let tr ← getTraj a
-      pure (trajEq (collapse tr) spec)
+      let strict ← getBool (← fld j "strict")
+      pure (arraysMatch strict tr hs statuses)
   let qs ← getList (fun q => do
       match ← getArr q with
       | [v, t] => pure ((← getNat v), (← getRat t))
